@@ -98,6 +98,8 @@ Theorem C06_only_last_attempt_can_succeed : forall cfg parts atts cancel pre r p
 Proof. exact retry_only_last_succeeds. Qed.
 Theorem C06_retry_spec_sound : forall i, spec_c06_retry i (model_robs i) = [].
 Proof. exact spec_c06_retry_sound. Qed.
+Theorem C06_retry_record_sound : forall i, spec_c06_retry_record i (model_robs i) = [].
+Proof. exact spec_c06_retry_record_sound. Qed.
 Example C06_retry_example :
   let cfg := {| maxlag := 100; recov := true; maxrec := 50 |} in
   map a_err (retry cfg [0] [ {| at_com := CErr; at_wms := []; at_fail := false |};
@@ -122,3 +124,4 @@ Print Assumptions C06_only_last_attempt_can_succeed.
 Print Assumptions C06_retry_spec_sound.
 Print Assumptions C06_domain_inhabited.
 Print Assumptions C06_retry_example.
+Print Assumptions C06_retry_record_sound.
